@@ -321,6 +321,8 @@ def run(chk: Check, ctx: Any) -> None:
                            "is overwritten with the line of `break_loop;`/`continue;`", "synthetic vertex does not re-register a real op's offset", node=c)
     chk.floor("C09-R4", "synthetic vertices created by graph passes", n_syn, 2)
     from .roundtrip import summarise as _rt
+    from .ssbs_roundtrip import ssbs_sourcemap_rule
+    ssbs_sourcemap_rule(chk, ctx, "C09-R6")
     _rt(chk, ctx, "C09-R6", "C09", getattr(ctx, "tier", "quick") == "thorough")
 
 
